@@ -19,6 +19,12 @@ import OpcuaModel.Model.ChunkRef
         → ok <seq'> <n> <len>.<flag>.<sizefield>.<sha256> … | err | panic   (`sendMessage`)
     sendhex …same arguments…
         → ok <seq'> <hex of chunk 1> …                    (for diagnosis)
+    asymparams <localSize> <remoteSize> <pad>
+        → <blockSize> <plaintextBlockSize> <signatureLength> <remoteSignatureLength>   (`asymParams`)
+    asymlen <mode> <sig> <rsl> <pbs> <bs> <hl> <rawlen>
+        → ok <len> <sizefield> | err | panic      (`signAndEncrypt`, asymmetric, length-preserving dummy primitives)
+    asymtail <mode> <sig> <rsl> <hl> <header ‖ decrypted plaintext>
+        → ok <hex> | err | panic                  (`verifyTail`, asymmetric, signature verdict = valid)
     recv <policy> <mode> <maxChunkCount> <maxMessageSize> <localNonce> <remoteNonce> <wirechunk> …
         → ok <req> <chan> <len> <sha256 of body> <leftover> | continue | err | panic   (`receiveAll`, empty table)
 -/
@@ -50,6 +56,14 @@ def parseMerge (l : List String) : Option (List RChunk) :=
       let dd ← unhexFast d
       pure { chunkType := chunkC, channelID := 0, seq := sq, requestID := 0, data := dd }
     | _ => none
+
+/-- an asymmetric side with length-faithful dummy primitives: the RSA
+    operations themselves are the subject of C15, here only the layout logic -/
+def asymSide (mode : Mode) (sig rsl pbs bs : Nat) : Side :=
+  ⟨mode, false,
+   { name := "asym", blockSize := bs, plaintextBlockSize := pbs, signatureLength := sig, remoteSignatureLength := rsl },
+   { enc := fun p => some (List.replicate (p.length / pbs * bs) 0), dec := fun _ => none,
+     sign := fun _ => some (List.replicate sig 0), verify := fun _ _ => true }⟩
 
 def handle : List String → String
   | ["selftest"] =>
@@ -99,6 +113,23 @@ def handle : List String → String
         | none => "bad-op"
       | _, _, _ => "bad-op"
     | _, _, _, _, _, _ => "bad-op"
+  | ["asymparams", ls, rs, pad] =>
+    match ls.toNat?, rs.toNat?, pad.toNat? with
+    | some ls, some rs, some pad =>
+      let a := asymParams ls rs pad
+      s!"{a.blockSize} {a.plaintextBlockSize} {a.signatureLength} {a.remoteSignatureLength}"
+    | _, _, _ => "bad-op"
+  | ["asymlen", m, sig, rsl, pbs, bs, hl, rawlen] =>
+    match modeOf m, sig.toNat?, rsl.toNat?, pbs.toNat?, bs.toNat?, hl.toNat?, rawlen.toNat? with
+    | some mode, some sig, some rsl, some pbs, some bs, some hl, some rawlen =>
+      resStr (signAndEncrypt (asymSide mode sig rsl pbs bs) true hl (List.replicate rawlen 0))
+        fun w => s!"ok {w.length} {u32At w 4}"
+    | _, _, _, _, _, _, _ => "bad-op"
+  | ["asymtail", m, sig, rsl, hl, data] =>
+    match modeOf m, sig.toNat?, rsl.toNat?, hl.toNat?, unhexFast data with
+    | some mode, some sig, some rsl, some hl, some data =>
+      resStr (verifyTail (asymSide mode sig rsl 1 1) true hl data) fun d => s!"ok {toHex d}"
+    | _, _, _, _, _ => "bad-op"
   | "recv" :: p :: m :: mcc :: mms :: ln :: rn :: chunks =>
     match modeOf m, mcc.toNat?, mms.toNat?, unhexFast ln, unhexFast rn, parseChunks chunks with
     | some mode, some mcc, some mms, some ln, some rn, some ws =>
